@@ -34,10 +34,12 @@ func (r *ComDoc) readDir() error {
 	cooked := make([]DirEnt, count)
 	rootIndex := -1
 	sector := r.Header.DirNextSector
+	seen := make(map[SecID]bool)
 	for sector >= 0 {
-		if len(files)/count > len(r.SAT) {
+		if seen[sector] {
 			return errors.New("directory chain loops")
 		}
+		seen[sector] = true
 		if err := r.readSectorStruct(sector, raw); err != nil {
 			return err
 		}
